@@ -14,6 +14,8 @@
 //!   `J <step> ( ; <step> )*`  getopts sessions in ONE shell environment: `S <i|a|l> <optstring> <limit|*> <arg>*` (spelling:
 //!       implicit positional parameters | explicit "$@" | literal vector; run to completion or for <limit> calls), `R <value>` (OPTIND=value)
 //!   `G <optstring> <arg>*`                        `while getopts optstring v arg…` run to the end in a virtual shell
+//!   `Y <ln><p> <table> <arg>*`                    typeset/syntax.rs `parse` + `interpret` called directly (tables `@typeset`,
+//!       `@export`, `@readonly` = the real constants, or an explicit `<short>:<long>:<attr>` list)
 //!   `U <names> <init> <params0> <arg>*`           `set arg…` run in a virtual shell whose option states are <init> (`name.bit;…`, all
 //!       options) and whose positional parameters are <params0> (`_` or comma-separated hex): observation = exit status, diagnostic,
 //!       output, the options whose state changed, the positional parameters afterwards (model: set.rs `main` / `modify`)
@@ -198,14 +200,76 @@ fn observe(specs: &[SpecD], mode: Mode, args: &[String], spelling: bool) -> Stri
 // ------------------------------------------------------------------------------------------
 // Rust-side oracle for `P` cases (Mode::with_extensions and Mode::default only)
 
-/// Is `args[i]` examined as a possible option (all of `args[..i]` consumed as options, no
-/// option-argument pending, parsing not ended)?  Decided by the real parser: after such a prefix the
-/// first of two `--` is the separator and the second the only operand.
-fn option_position(specs: &[SpecD], mode: Mode, prefix: &[String]) -> bool {
-    let mut v = prefix.to_vec();
-    v.push("--".into());
-    v.push("--".into());
-    observe(specs, mode, &v, false).ends_with("] [2d2d]")
+/// Which arguments are examined as a possible option, and where the options end — decided by an independent
+/// argument-at-a-time reader of the documented syntax over the table (NOT by the parser under test): `--` ends
+/// the options, so does the first operand; a letter that takes an argument takes the rest of its group or the
+/// next argument; a long option that takes an argument and has no `=` takes the next argument.  The walk stops
+/// at the first argument the syntax rejects (that argument is still in option position).
+/// Returns (indices in option position, `Some(i)` = the options end at `args[i]` (`--` or the first operand, or
+/// `args.len()`), `None` = an argument was rejected).
+fn option_positions(specs: &[SpecD], mode: Mode, args: &[String]) -> (Vec<usize>, Option<usize>) {
+    let ext = mode == Mode::with_extensions();
+    let mut pos = vec![];
+    let mut i = 0;
+    while i < args.len() {
+        pos.push(i);
+        let cs: Vec<char> = args[i].chars().collect();
+        if cs.len() >= 2 && cs[0] == '-' && cs[1] != '-' {
+            let mut k = 1;
+            let mut takes_next = false;
+            while k < cs.len() {
+                match first_short(specs, cs[k]) {
+                    None => return (pos, None),
+                    Some(s) if s.ext && !ext => return (pos, None),
+                    Some(s) if s.arg => {
+                        if k + 1 < cs.len() {
+                            if !ext {
+                                return (pos, None);
+                            }
+                        } else {
+                            takes_next = true;
+                        }
+                        break;
+                    }
+                    Some(_) => k += 1,
+                }
+            }
+            i += 1;
+            if takes_next {
+                if i >= args.len() {
+                    return (pos, None);
+                }
+                i += 1;
+            }
+        } else if cs.len() >= 3 && cs[0] == '-' && cs[1] == '-' {
+            if !ext {
+                return (pos, None);
+            }
+            let body: String = cs[2..].iter().collect();
+            let (name, has_eq) = match body.split_once('=') {
+                Some((n, _)) => (n.to_string(), true),
+                None => (body.clone(), false),
+            };
+            match resolve_long(specs, &name) {
+                (Some(s), _) => {
+                    if s.arg && !has_eq {
+                        if i + 1 >= args.len() {
+                            return (pos, None);
+                        }
+                        i += 2;
+                    } else if !s.arg && has_eq {
+                        return (pos, None);
+                    } else {
+                        i += 1;
+                    }
+                }
+                _ => return (pos, None),
+            }
+        } else {
+            return (pos, Some(i));
+        }
+    }
+    (pos, Some(args.len()))
 }
 
 fn operands_of(obs: &str) -> Option<&str> {
@@ -248,10 +312,19 @@ fn oracle_p(specs: &[SpecD], mode: Mode, args: &[String]) -> String {
         let o = observe(specs, mode, &v, false);
         if o == base { None } else { Some(format!("FAIL:{what}@{i} rewritten gives {o}")) }
     };
-    for i in 0..args.len() {
-        if !option_position(specs, mode, &args[..i]) {
-            continue;
+    let (positions, end) = option_positions(specs, mode, args);
+    // `--` ends option parsing: whatever the options were, the operands are exactly the arguments after the first
+    // `--` in option position (or from the first operand on), verbatim — another `--` among them included
+    if let Some(e) = end {
+        checked += 1;
+        let from = if e < args.len() && args[e] == "--" { e + 1 } else { e };
+        let want: Vec<String> = args[from.min(args.len())..].iter().map(|a| enc_str(a)).collect();
+        match operands_of(&base) {
+            Some(got) if got == want.join(",") => {}
+            _ => return format!("FAIL:operands must be the arguments from index {from} on, verbatim: {base}"),
         }
+    }
+    for i in positions {
         let t = &args[i];
         let cs: Vec<char> = t.chars().collect();
         let portable_ok = |s: &SpecD| ext || !s.ext;
@@ -1323,6 +1396,362 @@ fn run_u(w: &[&str]) -> (String, String) {
     })
 }
 
+// ------------------------------------------------------------------------------------------
+// `Y`: the bespoke parser of the typeset family (typeset/syntax.rs `parse` + `interpret`) called directly
+//
+//   `Y <ln><p> <table> <arg>*`   <ln> = Mode::long_option_names, <p> = the `portable` state handed to `interpret`,
+//   <table> = `@typeset` | `@export` | `@readonly` (the REAL constants; the model uses the re-extracted
+//   `Generated.ArgSpecs.typesetTables`) or `_` / comma-separated `<short>:<long>:<attr>` (attr 0 none, 1 ReadOnly, 2 Export)
+//
+// Observation: `err:<class>[:char]` or `ok [<short>.<attr>=<state>;…] [operands] => <command | ierr:… | skip>` (the
+// occurrences are printed as well as the command, so a parser mistake that `interpret` happens to absorb still shows).
+// Oracle (Rust only): an independent argument-at-a-time reader of the documented syntax over the table must give the
+// same answer, and the canonical spelling (one `-c` / `+c` per option, computed by that reader) must parse alike.
+
+use yash_builtin::typeset::syntax as ty;
+
+#[derive(Clone, Debug, PartialEq, Eq)]
+struct TSpecD {
+    short: char,
+    long: String,
+    attr: u8,
+}
+
+fn ty_attr(a: Option<ty::Attr>) -> u8 {
+    match a {
+        None => 0,
+        Some(ty::Attr::ReadOnly) => 1,
+        Some(ty::Attr::Export) => 2,
+    }
+}
+
+fn y_table(t: &str) -> Option<Vec<TSpecD>> {
+    let real = |l: &[ty::OptionSpec<'static>]| -> Vec<TSpecD> {
+        l.iter().map(|s| TSpecD { short: s.short, long: s.long.to_string(), attr: ty_attr(s.attr) }).collect()
+    };
+    match t {
+        "@typeset" => Some(real(ty::ALL_OPTIONS)),
+        "@export" => Some(real(yash_builtin::export::PORTABLE_OPTIONS)),
+        "@readonly" => Some(real(yash_builtin::readonly::PORTABLE_OPTIONS)),
+        "_" => Some(vec![]),
+        _ => t
+            .split(',')
+            .map(|e| {
+                let f: Vec<&str> = e.split(':').collect();
+                if f.len() != 3 {
+                    return None;
+                }
+                let sh = dec_str(f[0])?;
+                let mut cs = sh.chars();
+                let (Some(c), None) = (cs.next(), cs.next()) else { return None };
+                let attr = match f[2] {
+                    "0" => 0,
+                    "1" => 1,
+                    "2" => 2,
+                    _ => return None,
+                };
+                Some(TSpecD { short: c, long: dec_str(f[1])?, attr })
+            })
+            .collect(),
+    }
+}
+
+fn show_ytable(t: &[TSpecD]) -> String {
+    if t.is_empty() {
+        return "_".into();
+    }
+    t.iter().map(|s| format!("{}:{}:{}", enc_str(&s.short.to_string()), enc_str(&s.long), s.attr)).collect::<Vec<_>>().join(",")
+}
+
+fn y_interpretable(t: &[TSpecD]) -> bool {
+    t.iter().all(|s| s.attr != 0 || matches!(s.short, 'f' | 'g' | 'p' | 'X'))
+}
+
+fn y_occ(short: char, attr: u8, on: bool) -> String {
+    format!("{}.{}={}", enc_str(&short.to_string()), attr, on as u8)
+}
+
+fn y_attrs<I: Iterator<Item = (u8, bool)>>(l: I) -> String {
+    l.map(|(a, s)| format!("{}={}", if a == 1 { "ro" } else { "ex" }, s as u8)).collect::<Vec<_>>().join(";")
+}
+
+/// the real `parse` (+ `interpret`) on one vector
+fn observe_typeset(table: &[TSpecD], ln: bool, portable: bool, args: &[String]) -> String {
+    use yash_builtin::typeset::{Command as C, FunctionAttr, Scope, VariableAttr};
+    guarded(|| {
+        let specs: Vec<ty::OptionSpec<'_>> = table
+            .iter()
+            .map(|s| ty::OptionSpec {
+                short: s.short,
+                long: s.long.as_str(),
+                attr: match s.attr {
+                    1 => Some(ty::Attr::ReadOnly),
+                    2 => Some(ty::Attr::Export),
+                    _ => None,
+                },
+            })
+            .collect();
+        let mut mode = Mode::default();
+        mode.long_option_names = ln;
+        let fields: Vec<Field> = args.iter().map(|a| Field::dummy(a.clone())).collect();
+        let ch = |c: char| enc_str(&c.to_string());
+        let on = |s: OptState| s == OptState::On;
+        match ty::parse(&specs, mode, fields) {
+            Err(e) => match e {
+                ty::ParseError::UnknownShortOption(c, _) => format!("err:unknownShort:{}", ch(c)),
+                ty::ParseError::UnknownLongOption(_) => "err:unknownLong".into(),
+                ty::ParseError::AmbiguousLongOption(_) => "err:ambiguousLong".into(),
+                ty::ParseError::NonPortableLongOption(_) => "err:nonPortableLong".into(),
+                ty::ParseError::UncancelableShortOption(c, _) => format!("err:uncancelableShort:{}", ch(c)),
+                ty::ParseError::UncancelableLongOption(_) => "err:uncancelableLong".into(),
+                _ => "err:other".into(),
+            },
+            Ok((options, operands)) => {
+                let occs = options.iter().map(|o| y_occ(o.spec.short, ty_attr(o.spec.attr), on(o.state))).collect::<Vec<_>>().join(";");
+                let ops = show_strs(operands.iter().map(|f| f.value.as_str()));
+                let interp = if !y_interpretable(table) {
+                    "skip".to_string()
+                } else {
+                    let vattr = |a: &VariableAttr| if *a == VariableAttr::ReadOnly { 1u8 } else { 2u8 };
+                    let fattr = |a: &FunctionAttr| match a {
+                        FunctionAttr::ReadOnly => 1u8,
+                        _ => 9u8,
+                    };
+                    let strs = |l: &[Field]| show_strs(l.iter().map(|f| f.value.as_str()));
+                    match ty::interpret(options, operands, if portable { OptState::On } else { OptState::Off }) {
+                        Ok(C::SetVariables(v)) => format!(
+                            "setvars [{}] g={} [{}]",
+                            y_attrs(v.attrs.iter().map(|(a, s)| (vattr(a), on(*s)))),
+                            (v.scope == Scope::Global) as u8,
+                            strs(&v.variables)
+                        ),
+                        Ok(C::PrintVariables(v)) => format!(
+                            "printvars [{}] g={} [{}]",
+                            y_attrs(v.attrs.iter().map(|(a, s)| (vattr(a), on(*s)))),
+                            (v.scope == Scope::Global) as u8,
+                            strs(&v.variables)
+                        ),
+                        Ok(C::SetFunctions(v)) => {
+                            format!("setfns [{}] [{}]", y_attrs(v.attrs.iter().map(|(a, s)| (fattr(a), on(*s)))), strs(&v.functions))
+                        }
+                        Ok(C::PrintFunctions(v)) => {
+                            format!("printfns [{}] [{}]", y_attrs(v.attrs.iter().map(|(a, s)| (fattr(a), on(*s)))), strs(&v.functions))
+                        }
+                        Err(ty::InterpretError::OptionInapplicableForFunction { clashing, function }) => format!(
+                            "ierr:inapplicable:{}:{}",
+                            y_occ(clashing.spec.short, ty_attr(clashing.spec.attr), on(clashing.state)),
+                            y_occ(function.spec.short, ty_attr(function.spec.attr), on(function.state))
+                        ),
+                        Err(ty::InterpretError::MissingOperand) => "ierr:missingOperand".into(),
+                        Err(ty::InterpretError::UnexpectedOperands { operands, .. }) => {
+                            format!("ierr:unexpectedOperands:[{}]", strs(&operands))
+                        }
+                        Err(_) => "ierr:other".into(),
+                    }
+                };
+                format!("ok [{occs}] [{ops}] => {interp}")
+            }
+        }
+    })
+}
+
+/// The independent reader (no yash code): one argument at a time; a group is `sign letter…` whose first letter is
+/// not the same sign, a long option `--name` / `++name`, `--` the separator, anything else the first operand.
+/// Returns the parse part of the observation and the canonical spelling of the vector.
+fn y_reader(table: &[TSpecD], ln: bool, args: &[String]) -> (String, Vec<String>) {
+    let mut occs: Vec<String> = vec![];
+    let mut canon: Vec<String> = vec![];
+    let mut i = 0;
+    let mut operands: &[String] = &[];
+    while i < args.len() {
+        let a = &args[i];
+        let cs: Vec<char> = a.chars().collect();
+        if a == "--" {
+            canon.extend_from_slice(&args[i..]);
+            operands = &args[i + 1..];
+            i = args.len();
+            break;
+        }
+        let sign = match cs.first() {
+            Some('-') => Some(false),
+            Some('+') => Some(true),
+            _ => None,
+        };
+        let sc = |n: bool| if n { '+' } else { '-' };
+        match sign {
+            Some(neg) if cs.len() >= 2 && cs[1] == sc(neg) => {
+                // long option
+                let name: String = cs[2..].iter().collect();
+                let cands: Vec<&TSpecD> = table.iter().filter(|s| s.long.starts_with(&name)).collect();
+                let err = if cands.is_empty() {
+                    Some("err:unknownLong")
+                } else if cands.len() > 1 {
+                    Some("err:ambiguousLong")
+                } else if neg && cands[0].attr == 0 {
+                    Some("err:uncancelableLong")
+                } else if !ln {
+                    Some("err:nonPortableLong")
+                } else {
+                    None
+                };
+                if let Some(e) = err {
+                    canon.extend_from_slice(&args[i..]);
+                    return (e.to_string(), canon);
+                }
+                occs.push(y_occ(cands[0].short, cands[0].attr, !neg));
+                canon.push(format!("{}{}", sc(neg), cands[0].short));
+            }
+            Some(neg) if cs.len() >= 2 => {
+                let mut mine = vec![];
+                for &c in &cs[1..] {
+                    match table.iter().find(|s| s.short == c) {
+                        None => {
+                            canon.extend_from_slice(&args[i..]);
+                            return (format!("err:unknownShort:{}", enc_str(&c.to_string())), canon);
+                        }
+                        Some(s) if neg && s.attr == 0 => {
+                            canon.extend_from_slice(&args[i..]);
+                            return (format!("err:uncancelableShort:{}", enc_str(&c.to_string())), canon);
+                        }
+                        Some(s) => {
+                            mine.push(y_occ(s.short, s.attr, !neg));
+                            canon.push(format!("{}{}", sc(neg), c));
+                        }
+                    }
+                }
+                occs.extend(mine);
+            }
+            _ => {
+                canon.extend_from_slice(&args[i..]);
+                operands = &args[i..];
+                i = args.len();
+                break;
+            }
+        }
+        i += 1;
+    }
+    let _ = i;
+    (format!("ok [{}] [{}]", occs.join(";"), show_strs(operands.iter().map(|s| s.as_str()))), canon)
+}
+
+fn run_y(w: &[&str]) -> (String, String) {
+    let bad = || ("bad-case".to_string(), "-".to_string());
+    if w.len() < 3 || w[1].len() != 2 {
+        return bad();
+    }
+    let ln = &w[1][0..1] == "1";
+    let portable = &w[1][1..2] == "1";
+    let Some(table) = y_table(w[2]) else { return bad() };
+    let Some(args) = w[3..].iter().map(|a| dec_str(a)).collect::<Option<Vec<String>>>() else { return bad() };
+    let obs = observe_typeset(&table, ln, portable, &args);
+    let parse_part = obs.split(" => ").next().unwrap_or("").to_string();
+    let (expect, canon) = y_reader(&table, ln, &args);
+    // a table with a sign as an option letter, or two options under one letter, has no canonical spelling
+    let well_formed = table.iter().enumerate().all(|(i, s)| s.short != '-' && s.short != '+' && table.iter().position(|t| t.short == s.short) == Some(i));
+    let oracle = if parse_part != expect {
+        format!("FAIL:independent reader gives {expect}")
+    } else if well_formed && canon != args {
+        let o2 = observe_typeset(&table, ln, portable, &canon);
+        if o2 != obs { format!("FAIL:canonical spelling {canon:?} gives {o2}") } else { "ok".into() }
+    } else {
+        "ok".into()
+    };
+    (obs, oracle)
+}
+
+fn y_case(ln: bool, portable: bool, table: &str, args: &[&str]) -> String {
+    let mut s = format!("Y {}{} {}", ln as u8, portable as u8, table);
+    for a in args {
+        s.push(' ');
+        s.push_str(&enc_str(a));
+    }
+    s
+}
+
+const Y_TOKENS: [&str; 62] = [
+    "-f", "-g", "-p", "-r", "-x", "-X", "-fg", "-gp", "-rx", "-xX", "-pz", "-z", "-fpr", "+r", "+x", "+X", "+rx", "+p", "+f", "+xp", "+xz",
+    "--", "-", "+", "++", "-+", "+-", "-+r", "+-x", "-r-", "+x+", "--functions", "--f", "--global", "--print", "--p", "--readonly", "--r",
+    "--export", "--e", "--ex", "--unexport", "--u", "--un", "++readonly", "++r", "++export", "++e", "++unexport", "++print", "++p", "--x",
+    "--zzz", "++zzz", "--readonlyx", "name", "name=v", "", "é", "-é", "--é", "---",
+];
+
+/// tables that are not the real ones: nested long names (typeset's parser gives an exactly named option no preference),
+/// a shared first letter, duplicate letters, a sign as a letter, non-ASCII names, an empty long name, the empty table
+fn y_odd_tables() -> Vec<Vec<TSpecD>> {
+    let t = |l: &[(char, &str, u8)]| l.iter().map(|(c, n, a)| TSpecD { short: *c, long: n.to_string(), attr: *a }).collect::<Vec<_>>();
+    vec![
+        t(&[('f', "functions", 0), ('p', "print", 0), ('r', "readonly", 1), ('x', "export", 2), ('e', "exportall", 2)]),
+        t(&[('p', "print", 0), ('r', "re", 1), ('x', "readonly", 1), ('X', "rex", 2)]),
+        t(&[('r', "readonly", 1), ('r', "really", 2), ('p', "print", 0)]),
+        t(&[('-', "dash", 1), ('+', "plus", 2), ('p', "print", 0)]),
+        t(&[('é', "été", 1), ('x', "", 2), ('g', "global", 0)]),
+        t(&[('z', "zeta", 0), ('r', "readonly", 1)]),
+        t(&[]),
+    ]
+}
+
+fn typeset_cases(e: &mut Emitter, rng: &mut Rng, thorough: bool) {
+    let modes: &[(bool, bool)] = &[(true, false), (false, true), (true, true), (false, false)];
+    // the real tables: every vector over the token set
+    let maxlen = if thorough { 3 } else { 2 };
+    enumerate_tokens(e, &Y_TOKENS, maxlen, &mut |a| {
+        let ms = if a.len() < 3 { modes } else { &modes[..2] };
+        let mut v: Vec<String> = ms.iter().map(|(ln, p)| y_case(*ln, *p, "@typeset", a)).collect();
+        if a.len() < 3 {
+            v.push(y_case(true, false, "@export", a));
+            v.push(y_case(false, true, "@readonly", a));
+        }
+        v
+    });
+    // odd tables and the real ones: random vectors of length 3-6 over the tokens and over tokens made from the table
+    let odd = y_odd_tables();
+    let n = if thorough { 60_000 } else { 4_000 };
+    for k in 0..n {
+        let (name, table): (String, Vec<TSpecD>) = match k % 10 {
+            0 => ("@typeset".into(), y_table("@typeset").unwrap()),
+            1 => ("@export".into(), y_table("@export").unwrap()),
+            2 => ("@readonly".into(), y_table("@readonly").unwrap()),
+            j => {
+                let t = odd[(j - 3) % odd.len()].clone();
+                (show_ytable(&t), t)
+            }
+        };
+        let mut toks: Vec<String> = vec![];
+        for s in &table {
+            toks.push(format!("-{}", s.short));
+            toks.push(format!("+{}", s.short));
+            toks.push(format!("--{}", s.long));
+            toks.push(format!("++{}", s.long));
+            let cs: Vec<char> = s.long.chars().collect();
+            if !cs.is_empty() {
+                let cut = 1 + rng.below(cs.len()) as usize;
+                let pre: String = cs[..cut].iter().collect();
+                toks.push(format!("--{pre}"));
+                toks.push(format!("++{pre}"));
+            }
+        }
+        if table.len() >= 2 {
+            let a = &table[rng.below(table.len())];
+            let b = &table[rng.below(table.len())];
+            toks.push(format!("-{}{}", a.short, b.short));
+            toks.push(format!("+{}{}", a.short, b.short));
+            toks.push(format!("-{}{}{}", b.short, a.short, b.short));
+        }
+        let len = 1 + rng.below(6);
+        let mut args: Vec<String> = vec![];
+        for _ in 0..len {
+            if !toks.is_empty() && rng.below(3) != 0 {
+                args.push(toks[rng.below(toks.len())].clone());
+            } else {
+                args.push(Y_TOKENS[rng.below(Y_TOKENS.len())].to_string());
+            }
+        }
+        let (ln, p) = modes[rng.below(4)];
+        let refs: Vec<&str> = args.iter().map(|s| s.as_str()).collect();
+        e.case(&y_case(ln, p, &name, &refs));
+    }
+}
+
 fn guarded_pair<F: FnOnce() -> (String, String)>(f: F) -> (String, String) {
     let cell = std::cell::RefCell::new(String::from("-"));
     let obs = guarded(|| {
@@ -2104,6 +2533,7 @@ fn run_case(case: &str) -> (String, String) {
         Some(&"H") => run_h(&w),
         Some(&"K") => run_k(&w),
         Some(&"U") => run_u(&w),
+        Some(&"Y") => run_y(&w),
         _ => ("bad-case".into(), "-".into()),
     }
 }
@@ -2743,6 +3173,7 @@ fn main() {
     // (iv) the bespoke parsers: set, the shell's command line, kill
     bespoke_shell_cases(&mut e);
     bespoke_cases(&mut e, &mut rng, thorough);
+    typeset_cases(&mut e, &mut rng, thorough);
 
     // (i) exhaustive: small tables x all vectors over the token set
     let small = small_tables(thorough);
